@@ -39,7 +39,7 @@ FullTy   == {"withNewMessage", "goWrapError", "uWrapFull"}
 LeafTy   == {"leafError", "goErr", "ctxDeadline", "errno", "opaqueErrno", "pkgFundamental",
              "unimplementedError", "barrierErr", "uPtrLeaf", "uValLeaf", "uRegLeaf",
              "uProtoLeaf", "uIsLeaf", "uIsIdLeaf", "uSafeMsgLeaf", "uMaybe", "grpcStatus",
-             "gogoStatus", "runtimeErr", "opaqueLeaf"}
+             "gogoStatus", "runtimeErr", "opaqueLeaf", "decoded"}
 \* Multi-cause nodes: text = branch texts joined by NL ...
 JoinTy   == {"joinError", "goJoin"}
 \* ... or own text.
